@@ -1,5 +1,5 @@
 (* Proofs about Model/Registry.v (C12, C13). *)
-From Refinery Require Import Lib.Base Model.TraceKey Proofs.TraceKey Model.Registry.
+From Refinery Require Import Lib.Base Lib.Strs_samp Model.Registry.
 From Refinery Require Gen.GenC12.
 From Coq Require Import ZifyN ZifyNat ZifyBool Permutation.
 
